@@ -83,7 +83,7 @@ let derive (fs : string list) : string =
        | Some pl, Some pt ->
          let part_to = Printf.sprintf "to=%s|totext=%s|toll=%s|tolltext=%s"
              (items_s un pl) (text_s un pl (Lossy.print_para pl))
-             (items_s un (Deb822Parse.items pt)) (text_s un pl (text pt)) in
+             (items_s un (ll_items pt)) (text_s un pl (texts pt)) in
          let part_rt = if st.s_from then
              Printf.sprintf "|rt=%s|rtll=%s" (rt_s st un v (x_from_lossy tbl fields pl)) (rt_s st un v (x_from_ll tbl sk rk fields pt))
            else "" in
@@ -103,11 +103,12 @@ let derive (fs : string list) : string =
                | OutOfFuel -> "|prior=HANG" in
              let ll_part =
                match Deb822Parse.paragraph_from_str ptext with
-               | Ok p0 ->
+               | Ok p0node ->
+                 let p0 = children p0node in
                  (match x_update_ll sk rk fields v p0 with
                   | Some p1 ->
-                    Printf.sprintf "|priorll=%s|priorlltext=%s|updll=%s|updlltext=%s%s" (items_s un (Deb822Parse.items p0)) (hx (text p0))
-                      (items_s un (Deb822Parse.items p1)) (text_s un pl (text p1))
+                    Printf.sprintf "|priorll=%s|priorlltext=%s|updll=%s|updlltext=%s%s" (items_s un (ll_items p0)) (hx (texts p0))
+                      (items_s un (ll_items p1)) (text_s un pl (texts p1))
                       (if st.s_from then "|updllrt=" ^ rt_s st un v (x_from_ll tbl sk rk fields p1) else "")
                   | None -> "|updll=ILLTYPED")
                | Err _ -> "|priorll=ERR"
